@@ -17,6 +17,7 @@ import SpiceEv.Cmd.Battery
 import SpiceEv.Cmd.Strategies
 import SpiceEv.Cmd.Distributed
 import SpiceEv.Cmd.StratDistributed
+import SpiceEv.Cmd.StratPeakShaving
 import SpiceEv.Cmd.StratFlexWindow
 import SpiceEv.Cmd.StratSchedule
 import SpiceEv.Cmd.StratPeakLoadWindow
@@ -34,6 +35,7 @@ def allHandlers : List (String × Handler) :=
   ++ Cmd.Strategies.handlers
   ++ Cmd.Distributed.handlers
   ++ Cmd.StratDistributed.handlers
+  ++ PeakShaving.Cmd.handlers
   ++ Cmd.StratFlexWindow.handlers
   ++ Cmd.StratSchedule.handlers
   ++ Cmd.StratPeakLoadWindow.handlers
